@@ -1,8 +1,10 @@
 package scen
 
 import (
+	"berty.tech/go-orbit-db/utils"
 	"encoding/json"
 	"fmt"
+	"path"
 	"sort"
 	"strings"
 
@@ -46,6 +48,10 @@ type AdvOptions struct {
 	// ReusedOptions: the victim (and the non-writer's local replica) open a wildcard database of A first and
 	// then the attacked database with the SAME options value, as an application holding one options struct does
 	ReusedOptions bool
+	// RecordedEmpty: the database's manifest records an EMPTY write list (built block by block, as another
+	// implementation would record it; this library's constructor replaces an empty list by the creator's id):
+	// nobody may write, every replica opens the database by address
+	RecordedEmpty bool
 	// Concurrency (with SimpleDirect): replication concurrency of the replicas built by the store constructor
 	Concurrency uint
 }
@@ -96,7 +102,25 @@ func NewAdv(o AdvOptions) (*Adv, error) {
 	if o.Writers == nil {
 		w.WriteList = []string{ids["A"]}
 	}
-	if w.SA, err = w.A.DB.Create(bg, "db", o.Kind, mk()); err != nil {
+	if o.RecordedEmpty {
+		api := w.A.Peer.API()
+		listCID, err := logio.WriteCBOR(bg, api, map[string]interface{}{"write": "[]"}, nil)
+		if err != nil {
+			return nil, err
+		}
+		acCID, err := accesscontroller.CreateManifest(bg, api, "ipfs", accesscontroller.NewManifestParams(listCID, false, "ipfs"))
+		if err != nil {
+			return nil, err
+		}
+		manifestCID, err := utils.CreateDBManifest(bg, api, "db", o.Kind, acCID.String())
+		if err != nil {
+			return nil, err
+		}
+		w.WriteList = nil
+		if w.SA, err = w.A.DB.Open(bg, path.Join("/orbitdb", manifestCID.String(), "db"), &orbitdb.CreateDBOptions{Replicate: boolp(false)}); err != nil {
+			return nil, fmt.Errorf("open database with recorded empty list: %w", err)
+		}
+	} else if w.SA, err = w.A.DB.Create(bg, "db", o.Kind, mk()); err != nil {
 		return nil, fmt.Errorf("create: %w", err)
 	}
 	w.Addr = w.SA.Address().String()
